@@ -146,7 +146,7 @@ func ParseContractFile(path string) (*ContractFile, error) {
 			}
 			switch kind {
 			case "requires", "ensures", "modifies", "invariant", "decreases", "local", "terminates", "inline",
-				"recovers", "nopanic", "fresh", "lemma", "assert", "pure", "opaque", "panics", "trusted", "unroll", "calls_only", "lock", "ghost", "known":
+				"recovers", "nopanic", "fresh", "lemma", "assert", "pure", "split", "opaque", "panics", "trusted", "unroll", "calls_only", "lock", "ghost", "known":
 				cl.Kind = kind
 				cl.Text = rest
 				cur.Clauses = append(cur.Clauses, cl)
@@ -323,6 +323,13 @@ func rewriteGroups(s string) (string, error) {
 				out.Reset()
 				out.WriteString(cur[:b])
 				out.WriteString("(((" + strings.TrimSpace(args[0]) + ")))")
+			case ch == '(' && ident == "atHead":
+				if len(args) != 1 {
+					return "", fmt.Errorf("atHead takes one argument: %q", s)
+				}
+				out.Reset()
+				out.WriteString(cur[:b])
+				out.WriteString("((((" + strings.TrimSpace(args[0]) + "))))")
 			case ch == '(' && (ident == "forall" || ident == "exists"):
 				if len(args) != 4 {
 					return "", fmt.Errorf("%s takes (var, lo, hi, body): %q", ident, s)
@@ -356,6 +363,7 @@ func __decreases(int, int)          {}
 func __modifies(...interface{})     {}
 func __loopmodifies(int, ...interface{}) {}
 func __fresh(...interface{})        {}
+func __split(int, ...bool)          {}
 func __forall(lo, hi int, f func(int) bool) bool { return true }
 func __exists(lo, hi int, f func(int) bool) bool { return true }
 func out(w interface{}) []byte      { return nil }
@@ -366,6 +374,7 @@ func allocated(p interface{}) bool  { return true }
 func sameSlice(a, b []byte) bool    { return false }
 func subslice(a, b []byte) bool     { return false }
 func sliceOff(a, b []byte) int      { return 0 }
+func iteInt(c bool, a, b int) int   { return 0 }
 `
 
 // GenLine records which clause an emitted statement belongs to.
@@ -379,9 +388,8 @@ func (cf *ContractFile) Generate() (string, error) {
 	var sb strings.Builder
 	sb.WriteString("// Code generated by govc from contracts_verif.go; DO NOT EDIT.\n\n")
 	fmt.Fprintf(&sb, "package %s\n\n", cf.PkgName)
-	for _, im := range cf.Imports {
-		fmt.Fprintf(&sb, "import %s\n", im)
-	}
+	header := sb.String()
+	sb.Reset()
 	sb.WriteString(genHelpers)
 	for idx, fc := range cf.Funcs {
 		if fc.Spec {
@@ -418,9 +426,11 @@ func (cf *ContractFile) Generate() (string, error) {
 			cl := &fc.Clauses[ci]
 			if cl.Kind == "local" {
 				fmt.Fprintf(&sb, "\tvar %s\n", cl.Text)
-				nm, _ := splitWord(cl.Text)
-				for _, n := range strings.Split(nm, ",") {
-					fmt.Fprintf(&sb, "\t_ = %s\n", strings.TrimSpace(n))
+				for _, tok := range strings.Fields(cl.Text) {
+					fmt.Fprintf(&sb, "\t_ = %s\n", strings.TrimSuffix(tok, ","))
+					if !strings.HasSuffix(tok, ",") {
+						break
+					}
 				}
 			}
 		}
@@ -460,6 +470,12 @@ func (cf *ContractFile) Generate() (string, error) {
 				}
 			case "fresh":
 				stmt = fmt.Sprintf("__fresh(%s)", cl.Text)
+			case "split":
+				e, err := RewriteExpr(cl.Text)
+				if err != nil {
+					return "", fmt.Errorf("%s:%d: %v", fc.File, cl.Line, err)
+				}
+				stmt = fmt.Sprintf("__split(%d, %s)", cl.Loop, e)
 			default:
 				continue
 			}
@@ -467,5 +483,19 @@ func (cf *ContractFile) Generate() (string, error) {
 		}
 		sb.WriteString("\treturn\n}\n")
 	}
-	return sb.String(), nil
+	body := sb.String()
+	var imps strings.Builder
+	for _, im := range cf.Imports {
+		// emit only imports that the generated text references
+		f := strings.Fields(im)
+		path := strings.Trim(f[len(f)-1], "\"")
+		alias := path[strings.LastIndex(path, "/")+1:]
+		if len(f) == 2 {
+			alias = f[0]
+		}
+		if strings.Contains(body, alias+".") {
+			fmt.Fprintf(&imps, "import %s\n", im)
+		}
+	}
+	return header + imps.String() + body, nil
 }
